@@ -165,6 +165,17 @@ def cases(tier, rng):
         yield from valid_cases(a, tag, rng)
         yield from refusal_cases(a, tag, rng)
     yield from d23_cases()
+    # a Write that fails part-way (the destination cannot take all the bytes) must not alter the object either, and the
+    # next full write must still reproduce the bytes
+    for a, tag in arts[:10]:
+        b = R.encode(a)
+        caps = sorted({0, 7, 8, 9, 20, 36, 40, 500, 1060, 1061, 1500, 2112, len(b) - 1, len(b) // 2, len(b)} | {rng.randrange(len(b) + 1) for _ in range(4)})
+        for cap in caps:
+            if cap < 0: continue
+            exp = ("ok" if cap >= len(b) else "failed") + " 1 " + R.show_bytes(b)
+            yield Case(f"prt.wrfail {b.hex()} {cap}", expect=exp, tag="write-fails-part-way")
+    from .c20_prt import cancelling_cases
+    yield from cancelling_cases(rng, 30 if thorough else 8)
     yield from totals_cases(rng)
     # malformed: every integer field x boundary values on small files (sampled on the larger ones)
     small = [R.gen_art(rng, 1, 1, 1, layer_counts=(1, 2)), R.gen_art(rng, 0, 0, 2, layer_counts=(0, 1)), R.gen_art(rng, 2, 2, 0)]
